@@ -100,11 +100,12 @@ def snapshot(flavour="plain"):
         if os.path.exists(stamp):
             os.utime(root)
             return snap
-        # drop old snapshots of other trees (the 4 most recently used are kept)
+        # drop old snapshots of other trees (the 8 most recently used are kept: seeded trees, builders' mutants and the
+        # sanitizer flavour share this directory)
         os.makedirs(SCRATCH, exist_ok=True)
         snaps = [d for d in os.listdir(SCRATCH) if d.startswith("snap-") and d != "snap-" + th]
         snaps.sort(key=lambda d: os.path.getmtime(os.path.join(SCRATCH, d)), reverse=True)
-        for d in snaps[3:]:
+        for d in snaps[7:]:
             shutil.rmtree(os.path.join(SCRATCH, d), ignore_errors=True)
         os.makedirs(os.path.join(root, "root"), exist_ok=True)
         if not os.path.exists(os.path.join(root, "root", ".copied")):
